@@ -133,7 +133,8 @@ def run(ctx, rep):
                      ('C01.2', 'the count of a backend read is compared with the requested length before Ok'),
                      ('C01.3', 'zero-once request = [cluster start, cluster start + cluster size)'),
                      ('C01.4', 'install of a fresh cluster is paired with mark_new_cluster'),
-                     ('C01.5', 'do_read dispatches every MappingSource to a handler that receives the buffer')):
+                     ('C01.5', 'do_read dispatches every MappingSource to a handler that receives the buffer'),
+                     ('C01.6', 'an index inside an L2 slice is only combined with the slice entry count, an index inside an L2 table only with the table entry count')):
         rep.rule(rid, txt)
     handlers = read_handlers(f)
     rep.floor('read handlers', len(handlers), 7)
@@ -141,6 +142,7 @@ def run(ctx, rep):
     zero_once_rule(f, rep)
     pairing_rule(f, P, rep)
     dispatch_rule(f, P, rep, handlers)
+    unit_rule(f, P, rep)
 
 
 def read_handlers(f):
@@ -341,3 +343,65 @@ def dispatch_rule(f, P, rep, handlers):
                 rep.violation('C01.5', 'C01.5:do_read:%s' % name, b.where(bi), 'do_read has no handler for %s mappings' % name)
     if not found:
         raise AnalysisError('do_read: match on MappingSource not found')
+
+
+# counts and the indexes that range over them
+UNITS = {
+    'slice': {'count': ('l2_slice_entries',), 'index': ('SplitGuestOffset::l2_slice_index',)},
+    'table': {'count': ('Qcow2Info::l2_entries',), 'index': ('SplitGuestOffset::l2_index',)},
+}
+
+
+def unit_rule(f, P, rep):
+    """count - index (the number of entries left in a slice / a table): both have to be of the same table unit"""
+    n = 0
+    for b in f.body_list:
+        if '::tests::' in b.path:
+            continue
+        dp = None
+        for bi in sorted(b.reachable()):
+            for si, s in enumerate(b.blocks[bi]['st']):
+                if s['k'] == 'assign' and s['rv']['k'] == 'bin' and s['rv']['op'].startswith('Add'):
+                    # offset + (slice entry count << cluster_bits): a whole-slice span added to an offset that need not
+                    # be at the start of a slice
+                    if dp is None:
+                        dp = Deps(P, b)
+                    for x_, y_ in ((0, 1), (1, 0)):
+                        dy = dp.of_operand(s['rv']['ops'][y_], (bi, si))
+                        if any(z[0] == 'field' and z[1] == 'l2_slice_entries' for z in dy) and \
+                                any(z[0] == 'fn' and z[1].endswith('cluster_bits') for z in dy) and \
+                                not any(z[0] == 'fn' and z[1].endswith('l2_slice_index') for z in dy):
+                            rep.ob('C01.6', 'slice span added to an offset in %s at %s' % (short(b.path), b.where(bi)), False,
+                                   'the span is a whole slice, the slice index of the offset is not subtracted')
+                            rep.violation('C01.6', 'C01.6:%s:span' % short(b.path), b.where(bi),
+                                          '%s advances an offset by the span of a whole L2 slice without subtracting the position '
+                                          'of the offset inside its slice: when the offset is in the middle of a slice the round runs '
+                                          'past the end of the slice' % short(b.path))
+                    continue
+                if s['k'] != 'assign' or s['rv']['k'] != 'bin' or not s['rv']['op'].startswith('Sub'):
+                    continue
+                if dp is None:
+                    dp = Deps(P, b)
+                da = dp.of_operand(s['rv']['ops'][0], (bi, si))
+                db = dp.of_operand(s['rv']['ops'][1], (bi, si))
+
+                def unit_of(d, what):
+                    us = set()
+                    for u, tab in UNITS.items():
+                        for nm in tab[what]:
+                            if any((x[0] == 'fn' and x[1].endswith(nm)) or (x[0] == 'field' and x[1] == nm) for x in d):
+                                us.add(u)
+                    return us
+                ca, ib = unit_of(da, 'count'), unit_of(db, 'index')
+                if not ca or not ib:
+                    continue
+                n += 1
+                ok = ca == ib or (len(ca) > 1 or len(ib) > 1)
+                rep.ob('C01.6', 'entries left: count - index in %s at %s' % (short(b.path), b.where(bi)), ok,
+                       'count of %s, index of %s' % (sorted(ca), sorted(ib)))
+                if not ok:
+                    rep.violation('C01.6', 'C01.6:%s' % short(b.path), b.where(bi),
+                                  '%s subtracts an index inside an L2 %s from the entry count of an L2 %s: the number of entries left '
+                                  'is wrong whenever a slice is smaller than a table, so look-ups run across the boundary' % (
+                                      short(b.path), sorted(ib)[0], sorted(ca)[0]))
+    rep.floor('count - index computations', n, 2)
